@@ -390,6 +390,9 @@ fn harnesses(tier: Tier) -> Vec<Harness> {
             Some(3),
         ),
     ];
+    v.push(h("reset-range-vs-mark-vs-harvest", vec![vec![ResetRange(62, 3)], vec![SetBit(63), SetBit(66)], vec![Harvest]], None));
+    v.push(h("nested-slice-mark-vs-reset-bit", vec![vec![SliceMark(32, 31, 3)], vec![ResetBit(64), SetBit(64)]], None));
+    v.push(h("clone-vs-reset-vs-mark", vec![vec![Clone], vec![ResetBit(5)], vec![SetBit(5), SetBit(6)]], None));
     if tier.thorough() {
         v.push(h(
             "3x2-ops-mark-harvest",
